@@ -6,6 +6,7 @@ import (
 	"encoding/json"
 	"fmt"
 	"strings"
+	"sync"
 
 	"github.com/onflow/cadence"
 
@@ -146,29 +147,59 @@ func siteKind(v cadence.Value, s int) string {
 	return k[s]
 }
 
-func ccfRobustDoc(doc []byte, pairs int, st *robustStats, report func(dec string, input []byte, o outcome)) {
-	st.docs++
-	byteEdits(doc, pairs, func(m []byte) {
+var (
+	c42CorpusOnce sync.Once
+	c42DocsV      [][]byte
+)
+
+func c42Corpus(env *mc.Env) [][]byte {
+	c42CorpusOnce.Do(func() {
+		cdepth := mc.Pick(env, 1, 2)
+		seen := map[string]bool{}
+		for _, v := range cdcval.Values(cdepth) {
+			for _, det := range []bool{false, true} {
+				o := ccfEnc(det, v)
+				if o.ok() && !seen[string(o.bytes)] {
+					seen[string(o.bytes)] = true
+					c42DocsV = append(c42DocsV, o.bytes)
+				}
+			}
+		}
+	})
+	return c42DocsV
+}
+
+var c42Job = robustJob{
+	codec: "ccf",
+	docs:  c42Corpus,
+	edits: func(env *mc.Env, i int, doc []byte, f func(kind string, input []byte)) {
+		byteEdits(doc, mc.Pick(env, 4, 6), func(m []byte) { f("byte-edit", m) })
+	},
+	decode: func(kind string, input []byte, st *robustStats, report func(sig string, c valueCase, detail string)) {
 		for _, strict := range []bool{false, true} {
-			o := ccfDec(strict, m)
+			o := ccfDec(strict, input)
 			st.evals++
 			switch {
 			case o.panicV != nil:
-				name := "ccf.Decode"
+				name, codec := "ccf.Decode", "ccf"
 				if strict {
-					name = "ccf.Decode[strict]"
+					name, codec = "ccf.Decode[strict]", "ccf-strict"
 				}
-				report(name, append([]byte(nil), m...), o)
+				report(name+"|"+kind+"|panic:"+panicClass(o.panicV),
+					valueCase{Part: "robust", Codec: codec, Hex: hex.EncodeToString(input)}, o.describe())
 			case o.err != nil:
 				st.errDec++
 			default:
 				st.okDec++
 			}
 		}
-	})
+	},
 }
 
 func runC42(env *mc.Env) {
+	if robustDispatch(env, c42Job) {
+		return
+	}
 	depth := mc.Pick(env, 2, 3)
 	vals := cdcval.Values(depth)
 	env.R.Set("values", len(vals))
@@ -269,39 +300,12 @@ func runC42(env *mc.Env) {
 		}
 	})
 
-	// Part C: robustness on edited encodings
+	// Part C: robustness on edited encodings, in worker subprocesses
 	cdepth := mc.Pick(env, 1, 2)
-	corpus := cdcval.Values(cdepth)
-	var docs [][]byte
-	seen := map[string]bool{}
-	for _, v := range corpus {
-		for _, det := range []bool{false, true} {
-			o := ccfEnc(det, v)
-			if o.ok() && !seen[string(o.bytes)] {
-				seen[string(o.bytes)] = true
-				docs = append(docs, o.bytes)
-			}
-		}
-	}
-	env.R.Set("robust_corpus_docs", len(docs))
-	stats := make([]robustStats, len(docs))
+	docs := c42Corpus(env)
 	pairs := mc.Pick(env, 4, 6)
-	mc.ParallelFor(env, len(docs), func(i int) {
-		ccfRobustDoc(docs[i], pairs, &stats[i], func(dec string, input []byte, o outcome) {
-			codec := "ccf"
-			if dec != "ccf.Decode" {
-				codec = "ccf-strict"
-			}
-			env.R.Violation(dec+"|byte-edit|panic:"+panicClass(o.panicV),
-				valueCase{Part: "robust", Codec: codec, Hex: hex.EncodeToString(input)}, o.describe())
-		})
-	})
-	var tot robustStats
-	for _, s := range stats {
-		tot.evals += s.evals
-		tot.okDec += s.okDec
-		tot.errDec += s.errDec
-	}
+	env.R.Set("robust_corpus_docs", len(docs))
+	tot := runRobust(env, c42Job)
 	env.R.EvalN(tot.evals)
 	env.R.ClassN("edited-input:decoded", tot.okDec)
 	env.R.ClassN("edited-input:error", tot.errDec)
@@ -315,6 +319,8 @@ func replayC42(env *mc.Env, raw json.RawMessage) (bool, string) {
 		return false, err.Error()
 	}
 	switch c.Part {
+	case "robust-fatal":
+		return replayFatal(env, c)
 	case "robust":
 		o := ccfDec(c.Codec == "ccf-strict", c.bytes())
 		return o.panicV != nil, o.describe()
@@ -370,7 +376,7 @@ func init() {
 		Assumptions: []string{
 			"equality = structural equality of a canonical dump restricted to what a CCF message carries (gen/cdcval/dump.go, TInline) plus cadence.Type.Equal",
 			"composites that carry attachments are refused by the encoder with a documented user error: don't-care",
-			"fatal (unrecoverable) crashes are not isolated in-process; none was observed on the pinned tree",
+			"byte-edit decoding runs in worker subprocesses so that an unrecoverable fatal error is attributed to its input and reported as a violation",
 		},
 		Run:    runC42,
 		Replay: replayC42,
